@@ -137,7 +137,19 @@ fn run_source(rep: &Report, states: usize, core: bool, seed: u64) {
             };
             let ins = make(k, m, &mut rng);
             let mut sp = if st % 2 == 0 { Spell::plain() } else { Spell::random(rng.fork(st as u64)) };
-            let text = format!("start:\n{}\n", ins.src(&mut sp));
+            let mut text = format!("start:\n{}\n", ins.src(&mut sp));
+            // seeded slice: every second time the memory operand reaches the instruction as a macro argument (the
+            // assembler re-formats an argument, override included, before it substitutes it)
+            if !core && st % 2 == 1 {
+                if let Some(l) = first_mem_operand(&ins) {
+                    let full = ins.src(&mut Spell::plain());
+                    let opnd = l.src(&mut Spell::plain());
+                    if full.matches(opnd.as_str()).count() == 1 {
+                        text = format!("macro viaarg(zzp) -> {} <-\nstart:\nviaarg({})\n", full.replacen(opnd.as_str(), "zzp", 1), opnd);
+                        *loc.counters.entry("source forms whose memory operand is passed as a macro argument").or_insert(0) += 1;
+                    }
+                }
+            }
             let a = match crate::asm::assemble(&text) {
                 Ok(a) => a,
                 Err(_) => {
